@@ -2,14 +2,14 @@
 //!
 //! Alphabet: format arguments (every name listed in `usage_help.md` x parameter values {absent, documented
 //! default, every legal value, 0, 1, non-number, unknown key, doubled key} + a fixed list of wrong names),
-//! output modes (none, `-o F`, `--output=F`, `-p`/`--print`, `-p -o F`), input names (main.asm, dir/main.asm,
+//! output modes (none, `-o F`, `--output=F`, `-p`/`--print`, `-p -o F`), input names (main.asm, dir/main.asm, dir.v2/prog,
 //! main, main.bin, main.txt, none, two inputs), global options in every documented spelling at every position
 //! (before the inputs, between any two chunks of the first group, at the start / middle / end of later groups).
 //!
 //! Bound (every family is a complete product, decoded from a mixed-radix index, nothing sampled):
 //! * quick    – 1 group: FULL formats; 1 group + 1 global option: MID formats; 2 groups: MID formats (and SMALL x
 //!              the five input names); 2 groups + 1 global: TINY formats; iteration-budget family; on the real
-//!              binary the complete 1-group grid (FULL x main.asm, MID3 x 7 input sets, TINY x every global x
+//!              binary the complete 1-group grid (FULL x main.asm, MID3 x 8 input sets, TINY x every global x
 //!              every slot), a 2-group + 1 global grid over three valid formats, budgets and colours.
 //! * thorough – 2 groups: FULL formats; 3 groups: MID3 formats (and SMALL x five input names); 4 groups: TINY
 //!              formats; 2 groups + 1 global: MID3; 3 groups + 1 global: TINY; 2 groups + 2 different globals:
@@ -119,8 +119,12 @@ pub fn input_sets() -> Vec<InputSet> {
     for k in 1..=9 {
         v.push(set1(&format!("chain{}", k), "main.asm", &chain_program(k)));
     }
+    // an input without extension inside a directory whose name has a dot: the derived name replaces the extension of
+    // the LAST path component only
+    v.push(set1("dir.v2/prog", "dir.v2/prog", PROGRAM));
     v
 }
+const SET_DOTDIR: usize = 16;
 const SET_NONE: usize = 5;
 const SET_TWO: usize = 6;
 const SET_CHAIN0: usize = 7;
@@ -1513,7 +1517,7 @@ pub fn run(ctx: &Ctx) -> Report {
     let outs_2 = vec![NoOut, ShortO, LongO, Print, Shared];
     let outs_3 = vec![NoOut, ShortO, Print];
     let five: Vec<usize> = vec![0, 1, 2, 3, 4];
-    let seven: Vec<usize> = vec![0, 1, 2, 3, 4, SET_NONE, SET_TWO];
+    let seven: Vec<usize> = vec![0, 1, 2, 3, 4, SET_NONE, SET_TWO, SET_DOTDIR];
     let four: Vec<usize> = vec![0, 3, SET_NONE, SET_TWO];
     let two: Vec<usize> = vec![0, 3];
     let one: Vec<usize> = vec![0];
@@ -1521,7 +1525,7 @@ pub fn run(ctx: &Ctx) -> Report {
     let mut fams: Vec<Family> = vec![];
     let g = |name: &str, mode: &'static str, len: usize, f: &Formats, outs: &Vec<OutMode>, sets: &Vec<usize>, orders: u64| grid_family(&env, name, mode, len, f.clone(), outs.clone(), sets.clone(), orders, 2);
     let gl = |name: &str, mode: &'static str, len: usize, f: &Formats, outs: &Vec<OutMode>, sets: &Vec<usize>| global_family(&env, name, mode, len, f.clone(), outs.clone(), sets.clone(), globals.clone());
-    fams.push(g("1 group: FULL formats x 8 output modes x 7 input sets x 2 spellings x 2 chunk orders", "inproc", 1, &al.full, &outs1, &seven, 2));
+    fams.push(g("1 group: FULL formats x 8 output modes x 8 input sets x 2 spellings x 2 chunk orders", "inproc", 1, &al.full, &outs1, &seven, 2));
     fams.push(iters_family(&env, "inproc"));
     if !ctx.thorough {
         fams.push(gl("1 group + 1 global: MID formats x 4 output modes x 4 input sets x every global variant x every slot", "inproc", 1, &al.mid, &outs_n, &four));
@@ -1529,7 +1533,7 @@ pub fn run(ctx: &Ctx) -> Report {
         fams.push(g("2 groups: SMALL formats x 4 output modes x 5 input names x 2 spellings", "inproc", 2, &al.small, &outs_n, &five, 1));
         fams.push(gl("2 groups + 1 global: TINY formats x 4 output modes x {main.asm, main.bin} x every global variant x every slot", "inproc", 2, &al.tiny, &outs_n, &two));
     } else {
-        fams.push(gl("1 group + 1 global: MID formats x 4 output modes x 7 input sets x every global variant x every slot", "inproc", 1, &al.mid, &outs_n, &seven));
+        fams.push(gl("1 group + 1 global: MID formats x 4 output modes x 8 input sets x every global variant x every slot", "inproc", 1, &al.mid, &outs_n, &seven));
         fams.push(g("2 groups: FULL formats x 5 output modes (incl. shared name) x {main.asm, main.bin} x 2 spellings", "inproc", 2, &al.full, &outs_2, &two, 1));
         fams.push(g("2 groups: MID formats x 4 output modes x 5 input names x 2 spellings", "inproc", 2, &al.mid, &outs_n, &five, 1));
         fams.push(grid_family(&env, "3 groups: MID3 formats x 4 output modes x main.asm (-f / --format= alternating)", "inproc", 3, al.mid3.clone(), outs_n.clone(), one.clone(), 1, 1));
@@ -1544,12 +1548,12 @@ pub fn run(ctx: &Ctx) -> Report {
     if env.real_bin.is_some() {
         if !ctx.thorough {
             fams.push(g("1 group: FULL formats x 8 output modes x main.asm x 2 spellings", "real", 1, &al.full, &outs1, &one, 1));
-            fams.push(g("1 group: MID3 formats x 8 output modes x 7 input sets x 2 spellings", "real", 1, &al.mid3, &outs1, &seven, 1));
+            fams.push(g("1 group: MID3 formats x 8 output modes x 8 input sets x 2 spellings", "real", 1, &al.mid3, &outs1, &seven, 1));
             fams.push(gl("1 group + 1 global: TINY formats x 4 output modes x {main.asm, main.bin} x every global variant x every slot", "real", 1, &al.tiny, &outs_n, &two));
             fams.push(gl("2 groups + 1 global: MICRO formats x {none, -o, -p} x main.asm x every global variant x every slot", "real", 2, &al.micro, &outs_3, &one));
         } else {
-            fams.push(g("1 group: FULL formats x 8 output modes x 7 input sets x 2 spellings x 2 chunk orders", "real", 1, &al.full, &outs1, &seven, 2));
-            fams.push(gl("1 group + 1 global: MID3 formats x 4 output modes x 7 input sets x every global variant x every slot", "real", 1, &al.mid3, &outs_n, &seven));
+            fams.push(g("1 group: FULL formats x 8 output modes x 8 input sets x 2 spellings x 2 chunk orders", "real", 1, &al.full, &outs1, &seven, 2));
+            fams.push(gl("1 group + 1 global: MID3 formats x 4 output modes x 8 input sets x every global variant x every slot", "real", 1, &al.mid3, &outs_n, &seven));
             fams.push(g("2 groups: SMALL formats x 4 output modes x {main.asm, main.bin} x 2 spellings", "real", 2, &al.small, &outs_n, &two, 1));
             fams.push(gl("2 groups + 1 global: TINY formats x 4 output modes x main.asm x every global variant x every slot", "real", 2, &al.tiny, &outs_n, &one));
         }
